@@ -492,7 +492,7 @@ def call_bind(rep, model):
                     rep.violation('CALL-BIND', f'{fn.name}->{e["name"]}', e['where'], expected=f'binds against {ext.qual}{tuple(ext.params)}', found='; '.join(probs))
     if not bad:
         rep.ok('CALL-BIND', 'package', '-', found=f'{n} resolved call sites bind against their callee')
-    rep.floor('call sites bound', n, 80)
+    rep.floor('call sites bound', n, 60)
 
 
 def _doc_defaults(rep, model):
